@@ -266,3 +266,109 @@ pub fn run(args: &[String]) {
     let hist = h.iter().map(|(k, v)| format!("\"{}\":{}", k, v)).collect::<Vec<_>>().join(",");
     println!("{{\"kind\":\"xmatrix\",\"ops\":{},\"exhaustive_ops\":{},\"random_cases\":{},\"panics\":{},\"hist\":{{{}}}}}", ex.nops, nexh, cases, ex.npanic, hist);
 }
+
+// ---------------------------------------------------------------------------------------------------------------
+/// C17 search side: every operation compared entrywise with the same operation on the dense equivalents
+/// (entries are small dyadic numbers, so binary64 arithmetic is exact).
+fn dense_of(m: &Matrix) -> Option<Vec<f64>> {
+    let n = m.n;
+    let mut d = Vec::with_capacity(n * n);
+    for i in 0..n {
+        for j in 0..n {
+            match catch_unwind(AssertUnwindSafe(|| m[(i, j)])) {
+                Ok(v) => d.push(v),
+                Err(_) => return None,
+            }
+        }
+    }
+    Some(d)
+}
+
+fn build(rng: &mut Rng, n: usize) -> (Matrix, String) {
+    loop {
+        let spec = rand_ctor(rng, n);
+        let mut ex = Exec::new();
+        ex.new_mat("A", &spec);
+        if let Some(_) = ex.regs.get("A") {
+            fill(&mut ex, rng, "A");
+            let m = ex.regs.remove("A").unwrap();
+            let desc = format!("{} then {}", spec, ex.ops.lines().filter(|l| l.starts_with("set")).count());
+            return (m, desc);
+        }
+    }
+}
+
+pub fn oracle(args: &[String]) {
+    std::panic::set_hook(Box::new(|_| {}));
+    let seed: u64 = args.get(0).and_then(|s| s.parse().ok()).unwrap_or(1);
+    let cases: usize = args.get(1).and_then(|s| s.parse().ok()).unwrap_or(300);
+    let maxn: usize = args.get(2).and_then(|s| s.parse().ok()).unwrap_or(6);
+    let mut rng = Rng(seed ^ 0xC17);
+    for case in 0..cases {
+        let n = 1 + rng.below(maxn);
+        let (a, da_desc) = build(&mut rng, n);
+        let (b, db_desc) = build(&mut rng, n);
+        let mut why = String::new();
+        let (da, db) = (dense_of(&a), dense_of(&b));
+        let opk = rng.below(6);
+        let c = if rng.chance(0.3) { 0.0 } else { rand_val(&mut rng) };
+        let opname = ["add", "sub", "cadd", "csub", "cmul", "readwrite"][opk];
+        if da.is_none() { why = format!("constructor result cannot be read: {}", da_desc); }
+        if db.is_none() && why.is_empty() { why = format!("constructor result cannot be read: {}", db_desc); }
+        if why.is_empty() {
+            let (da, db) = (da.unwrap(), db.unwrap());
+            let res = catch_unwind(AssertUnwindSafe(|| match opk {
+                0 => a.clone() + b.clone(),
+                1 => a.clone() - b.clone(),
+                2 => a.clone().component_add(c),
+                3 => a.clone().component_sub(c),
+                4 => a.clone().component_mul(c),
+                _ => a.clone(),
+            }));
+            match res {
+                Err(_) => why = format!("{} panicked on well-formed operands", opname),
+                Ok(r) => match dense_of(&r) {
+                    None => why = format!("result of {} cannot be read", opname),
+                    Some(dr) => {
+                        for k in 0..n * n {
+                            let want = match opk { 0 => da[k] + db[k], 1 => da[k] - db[k], 2 => da[k] + c, 3 => da[k] - c, 4 => da[k] * c, _ => da[k] };
+                            if dr[k] != want {
+                                why = format!("{}: entry ({},{}) = {} but dense equivalent gives {}", opname, k / n, k % n, dr[k], want);
+                                break;
+                            }
+                        }
+                        // is_identity agrees with the dense definition
+                        let isid_dense = (0..n * n).all(|k| dr[k] == if k / n == k % n { 1.0 } else { 0.0 });
+                        if why.is_empty() && r.is_identity() != isid_dense {
+                            why = format!("is_identity = {} but dense definition gives {}", r.is_identity(), isid_dense);
+                        }
+                    }
+                },
+            }
+            // write semantics on A
+            if why.is_empty() && opk == 5 {
+                let (i, j) = (rng.below(n), rng.below(n));
+                let v = rand_val(&mut rng) + 100.0;
+                let inband = match &a.storage { MatrixStorage::Full => true, MatrixStorage::Identity => false, MatrixStorage::Banded { ml, mu } => j <= i + *mu && i <= j + *ml };
+                let mut a2 = a.clone();
+                let r = catch_unwind(AssertUnwindSafe(|| { a2[(i, j)] = v; a2 }));
+                match (r, inband) {
+                    (Ok(a2), true) => {
+                        let d2 = dense_of(&a2).unwrap_or_default();
+                        for k in 0..n * n {
+                            let want = if k == i * n + j { v } else { da[k] };
+                            if d2.get(k).copied() != Some(want) { why = format!("write ({},{}) changed entry ({},{})", i, j, k / n, k % n); break; }
+                        }
+                    }
+                    (Err(_), false) => {}
+                    (Ok(_), false) => why = format!("write outside the band / into Identity at ({},{}) did not panic", i, j),
+                    (Err(_), true) => why = format!("in-band write at ({},{}) panicked", i, j),
+                }
+            }
+        }
+        println!(
+            "{{\"kind\":\"moracle\",\"case\":{},\"n\":{},\"op\":\"{}\",\"a\":\"{} {}\",\"b\":\"{} {}\",\"scalar\":{},\"ok\":{},\"why\":{:?}}}",
+            case, n, opname, storage_str(&a.storage), da_desc, storage_str(&b.storage), db_desc, c, why.is_empty(), why
+        );
+    }
+}
